@@ -415,11 +415,13 @@ end
 
 inductive Err where
   | index | key | value | type | perm | attr | assertion
+  | cycle      -- the written container was moved into the offered value: pyglove does not return
   deriving DecidableEq, Repr, Inhabited
 
 def Err.name : Err → String
   | .index => "IndexError" | .key => "KeyError" | .value => "ValueError"
   | .type => "TypeError" | .perm => "WritePermissionError" | .attr => "AttributeError"
   | .assertion => "AssertionError"
+  | .cycle => "Hang"
 
 end Pg.Sym
